@@ -14,7 +14,13 @@
 /* quantifier-free: equality at the arbitrary ghost index g_i */
 size_t g_i;
 #define EQ_AT(a, b, n) (g_i < (n) ==> (a)[g_i] == (b)[g_i])
-#define FRESH_VEC(v, mincap) (__CPROVER_is_fresh(v, sizeof(ByteVec)) && (v)->cap >= (mincap) && (v)->cap <= 20000 && (v)->size <= (v)->cap && __CPROVER_is_fresh((v)->data, (v)->cap))
+/* second arbitrary index, for a callee whose caller needs the equality one position further on (the caller's harness fixes g_j = g_i + 1;
+ * the callee's own harness leaves g_j arbitrary) */
+size_t g_j;
+#define EQ_AT_J(a, b, n) (g_j < (n) ==> (a)[g_j] == (b)[g_j])
+/* output vectors: the ghost capacity is EXACTLY the largest size the statement allows (the strongest bounds check: one byte more is a failed obligation);
+ * a fixed-size object also keeps the SAT encoding small */
+#define FRESH_VEC(v, exactcap) (__CPROVER_is_fresh(v, sizeof(ByteVec)) && (v)->cap == (exactcap) && (v)->size <= (v)->cap && __CPROVER_is_fresh((v)->data, (exactcap)))
 #define FRESH_IN(v) (__CPROVER_is_fresh(v, sizeof(ByteVec)) && (v)->size <= 20000 && (v)->cap == (v)->size && ((v)->size == 0 || __CPROVER_is_fresh((v)->data, (v)->size)))
 
 static bool IsToKeyID(const ByteVec* script, uint160_c* hash)
@@ -40,8 +46,11 @@ __CPROVER_ensures(__CPROVER_return_value == (IS_P2PK_C || IS_P2PK_U))
 #else
 __CPROVER_ensures(__CPROVER_return_value == (IS_P2PK_C || (IS_P2PK_U && g_fully_valid)))
 #endif
-__CPROVER_ensures((__CPROVER_return_value && IS_P2PK_C) ==> EQ_AT(pubkey->vch, &SD(1), 33))
-__CPROVER_ensures((__CPROVER_return_value && IS_P2PK_U) ==> EQ_AT(pubkey->vch, &SD(1), 65))
+__CPROVER_ensures((__CPROVER_return_value && IS_P2PK_C) ==> EQ_AT_J(pubkey->vch, &SD(1), 33))
+__CPROVER_ensures((__CPROVER_return_value && IS_P2PK_U) ==> EQ_AT_J(pubkey->vch, &SD(1), 65))
+/* the header byte and the last byte of y (parity) are read by CompressScript at fixed positions */
+__CPROVER_ensures(__CPROVER_return_value ==> pubkey->vch[0] == SD(1))
+__CPROVER_ensures((__CPROVER_return_value && IS_P2PK_U) ==> pubkey->vch[64] == SD(65))
 __CPROVER_assigns(*pubkey);
 
 /* compressed forms: 0x00|hash160, 0x01|hash160, 0x02/0x03|x, 0x04+parity(y)|x */
@@ -70,7 +79,8 @@ __CPROVER_assigns();
 #define ID(i) (in->data[i])
 #define XD(i) (script->data[i])
 bool DecompressScript(ByteVec* script, unsigned int nSize, const ByteVec* in)
-__CPROVER_requires(FRESH_VEC(script, 67) && __CPROVER_is_fresh(in, sizeof(ByteVec)) && in->size == (nSize <= 1 ? 20u : 32u) && __CPROVER_is_fresh(in->data, in->size))
+/* target capacity: exactly 67 (largest special script) when proved on its own, or the 10000-byte target ScriptCompression::Unser passes */
+__CPROVER_requires(__CPROVER_is_fresh(script, sizeof(ByteVec)) && (script->cap == 67 || script->cap == 10000) && script->size <= script->cap && __CPROVER_is_fresh(script->data, script->cap) && __CPROVER_is_fresh(in, sizeof(ByteVec)) && in->size == (nSize <= 1 ? 20u : 32u) && __CPROVER_is_fresh(in->data, in->size))
 __CPROVER_ensures(nSize == 0 ==> (__CPROVER_return_value && script->size == 25 && XD(0) == 0x76 && XD(1) == 0xa9 && XD(2) == 20 && XD(23) == 0x88 && XD(24) == 0xac && EQ_AT(&XD(3), &ID(0), 20)))
 __CPROVER_ensures(nSize == 1 ==> (__CPROVER_return_value && script->size == 23 && XD(0) == 0xa9 && XD(1) == 20 && XD(22) == 0x87 && EQ_AT(&XD(2), &ID(0), 20)))
 #ifdef TWIN_DECOMPRESS
@@ -162,8 +172,8 @@ void h_varint32_roundtrip(void)
 
 void h_IsToKeyID(void) { const ByteVec* s; uint160_c* h; g_i = nondet_u64(); bool r = IsToKeyID(s, h); if (r) VERIF_REACH_PT("p2pkh"); else VERIF_REACH_PT("not p2pkh"); }
 void h_IsToScriptID(void) { const ByteVec* s; uint160_c* h; g_i = nondet_u64(); bool r = IsToScriptID(s, h); if (r) VERIF_REACH_PT("p2sh"); else VERIF_REACH_PT("not p2sh"); }
-void h_IsToPubKey(void) { const ByteVec* s; CPubKey* k; g_i = nondet_u64(); g_fully_valid = nondet_bool(); bool r = IsToPubKey(s, k); if (r) VERIF_REACH_PT("p2pk"); else VERIF_REACH_PT("not p2pk"); }
-void h_CompressScript(void) { const ByteVec* s; ByteVec* o; g_i = nondet_u64(); g_fully_valid = nondet_bool(); bool r = CompressScript(s, o); if (r) VERIF_REACH_PT("compressible"); else VERIF_REACH_PT("not compressible"); }
+void h_IsToPubKey(void) { const ByteVec* s; CPubKey* k; g_j = nondet_u64(); g_fully_valid = nondet_bool(); bool r = IsToPubKey(s, k); if (r) VERIF_REACH_PT("p2pk"); else VERIF_REACH_PT("not p2pk"); }
+void h_CompressScript(void) { const ByteVec* s; ByteVec* o; g_i = nondet_u64(); g_j = g_i + 1; g_fully_valid = nondet_bool(); bool r = CompressScript(s, o); if (r) VERIF_REACH_PT("compressible"); else VERIF_REACH_PT("not compressible"); }
 void h_GetSpecialScriptSize(void) { unsigned r = GetSpecialScriptSize(nondet_uint()); if (r == 32) VERIF_REACH_PT("32"); if (r == 0) VERIF_REACH_PT("0"); }
 void h_DecompressScript(void) { ByteVec* s; const ByteVec* in; g_i = nondet_u64(); g_decompress_ok = nondet_bool(); bool r = DecompressScript(s, nondet_uint(), in); if (r) VERIF_REACH_PT("decompressed"); else VERIF_REACH_PT("refused"); }
 void h_Coin_Serialize(void) { const Coin* c; EvStream* s; Coin_Serialize(c, s); VERIF_REACH_PT("returns"); }
